@@ -145,6 +145,19 @@ CHECKS = {
         'note': _COMMON_NOTE + 'Partial: runtime / OS behaviour is tested, not proved.',
         'technique': 'Coq proof (line-reader equivalence) + file-mode model/impl correspondence + file and subprocess monitors',
     },
+    'C14': {
+        'text': 'PARTIAL. Theorems in coq/props/C14.v: (1) the obligation regenerated from the current source on every run - '
+                'every store site (attribute / subscript assignment, augmented assignment, del, mutating method call, setattr) '
+                'in the code the read-only API can execute writes to an object created inside the call - checked in Coq over the '
+                'generated table (about 60 sites in more than 100 functions); a new write to a node, token, option object or '
+                'module constant turns an entry false and breaks the theorem; (2) frame theorems on the functional model (state '
+                'after any history = state before; outputs = outputs on a fresh import; two imports indistinguishable). '
+                'Correspondence and monitors: random histories of 3..12 read-only operations on kernpy with deep snapshots of the '
+                'document graph and module constants before/after, every result against a freshly imported copy and against the '
+                'model.',
+        'note': _COMMON_NOTE + 'Partial: the freshness classification is a syntactic may-alias analysis in tools/translate_effects.py (trusted); object identity / aliasing in CPython cannot be exhibited by the Gallina model.',
+        'technique': 'Coq-checked generated effect obligation (translator) + frame theorems on the functional model + history correspondence with deep snapshots',
+    },
     'C09': {
         'text': 'Theorems in coq/props/C09.v hold for every octave in Z (finite residue sweep by vm_compute lifted with '
                 'Z.div/mod lemmas; inverse, unison, octave, P4+P5 and failure-only-on-residue-22 proved algebraically for '
@@ -172,7 +185,7 @@ CHECKS = {
                 'line -> e, accidental copied; create_clef ignores any run of octave marks. Correspondence: the whole clef x '
                 'marks x letter x alteration x octave grid, malformed clefs and position strings, against the extracted model '
                 'and the Coq oracle. Document level (akern vs kern export, clef in force) is decided by correspondence and '
-                'monitors on generated documents, not by a theorem.',
+                'monitors on generated documents (clef in force through splits and clef changes), not by a theorem; known finding K6 (naturals / display suffixes).',
         'note': _COMMON_NOTE + 'int(str(n)) == n for the staff-position number is python builtin behaviour, checked in-kernel on the window -300..300 only (the theorems use the structured path).',
         'technique': 'Coq proof (Z.div/mod arithmetic by lia + finite table facts by vm_compute) over translator-regenerated clef tables; exhaustive model/impl correspondence',
     },
